@@ -250,7 +250,8 @@ fn text(v: Option<emit::Value>) -> Option<String> {
 fn id_text(v: Option<emit::Value>, width: usize) -> Option<String> {
     v.map(|v| match v.by_ref().cast::<u128>() {
         Some(n) => format!("{n:0width$x}"),
-        None => v.to_string(),
+        // (hex text means the same in either case)
+        None => v.to_string().to_lowercase(),
     })
 }
 
@@ -1256,7 +1257,13 @@ fn is_half(text: &str) -> bool {
 fn ids_frame(w: &Arc<World>, trace: u128, span: u64, repr: u8, part: u8) -> Frame<TheCtxt> {
     let t = emit::TraceId::from_u128(trace).unwrap();
     let s = emit::SpanId::from_u64(span).unwrap();
-    let (ts, ss) = (t.to_string(), s.to_string());
+    let (mut ts, mut ss) = (t.to_string(), s.to_string());
+    if repr == 1 && span % 2 == 1 {
+        // hex digits are hex digits in either case: upper case for the trace id, alternating for the span id
+        ts = ts.to_uppercase();
+        ss = ss.chars().enumerate().map(|(i, c)| if i % 2 == 0 { c.to_ascii_uppercase() } else { c }).collect();
+        w.probe("incoming_ids_as_upper_case_hex_text");
+    }
     let mut props: Vec<(&str, emit::Value)> = Vec::new();
     if part != 2 {
         props.push((
